@@ -576,4 +576,423 @@ theorem tet_planarStar (p0 p1 p2 p3 : P3)
   simp only [tetCell, List.mem_cons, List.not_mem_nil, or_false] at hf
   rcases hf with rfl | rfl | rfl | rfl <;> exact tri_planarStar _ _ _ hn
 
+/-! ### 3-D: tensor identity `Σ (w·n)(x·r) = V (w·r)` and the centroid identity -/
+
+theorem P3.dot_add_left (u v w : P3) : (u.add v).dot w = u.dot w + v.dot w := by
+  simp only [P3.dot, P3.add_x, P3.add_y, P3.add_z]; ring
+theorem P3.dot_sub_right (u v w : P3) : u.dot (v.sub w) = u.dot v - u.dot w := by
+  simp only [P3.dot, P3.sub_x, P3.sub_y, P3.sub_z]; ring
+
+/-- contribution of the inner triangle (origin, v, u) of the fan of tetrahedra about the origin -/
+def Hin (w r u v : P3) : Rat := w.dot (P3.smul (1 / 2) (v.cross u)) * (P3.smul (1 / 3) (u.add v)).dot r
+
+theorem Hin_antisymm (w r u v : P3) : Hin w r u v = -Hin w r v u := by
+  simp only [Hin, P3.dot, P3.smul_x, P3.smul_y, P3.smul_z, P3.cross_x, P3.cross_y, P3.cross_z, P3.add_x, P3.add_y, P3.add_z]
+  ring
+
+/-- the tensor identity on the tetrahedron (origin, a, b, m) -/
+theorem tri_tensor (w r m a b : P3) :
+    w.dot (subN m (a, b)) * (subC m (a, b)).dot r + Hin w r a b + Hin w r b m + Hin w r m a
+      = 1 / 3 * (subC m (a, b)).dot (subN m (a, b)) * w.dot r := by
+  simp only [Hin, subN, subC, P3.dot, P3.smul_x, P3.smul_y, P3.smul_z, P3.cross_x, P3.cross_y, P3.cross_z,
+    P3.add_x, P3.add_y, P3.add_z, P3.sub_x, P3.sub_y, P3.sub_z]
+  ring
+
+theorem inner_cancel (H : P3 → P3 → Rat) (hH : ∀ a b, H a b = -H b a) (m : P3) (l : List P3) (a z : P3) :
+    sumf (fun e => H e.2 m + H m e.1) (pathEdges a l z) = H z m + H m a := by
+  induction l generalizing a with
+  | nil => simp [pathEdges]
+  | cons b l ih =>
+    simp only [pathEdges, sumf_cons, ih b]
+    have := hH b m
+    linarith
+
+theorem face_tensor (w r m : P3) (vs : List P3) :
+    sumf (fun e => w.dot (subN m e) * (subC m e).dot r) (cycEdges vs)
+      = 1 / 3 * w.dot r * sumf (fun e => (subC m e).dot (subN m e)) (cycEdges vs)
+        - sumf (fun e => Hin w r e.1 e.2) (cycEdges vs) := by
+  have hin : sumf (fun e : P3 × P3 => Hin w r e.2 m + Hin w r m e.1) (cycEdges vs) = 0 := by
+    cases vs with
+    | nil => rfl
+    | cons a l =>
+      simp only [cycEdges]
+      rw [inner_cancel (Hin w r) (Hin_antisymm w r) m l a a]
+      have := Hin_antisymm w r a m
+      linarith
+  have hpt : ∀ e ∈ cycEdges vs, w.dot (subN m e) * (subC m e).dot r
+      = (1 / 3 * w.dot r) * (subC m e).dot (subN m e) - Hin w r e.1 e.2 - (Hin w r e.2 m + Hin w r m e.1) := by
+    intro e _
+    have := tri_tensor w r m e.1 e.2
+    linarith
+  rw [sumf_congr hpt, sumf_sub, sumf_sub, sumf_mul_left, hin]
+  ring
+
+/-- `Σ_e q_e · s_e` of a face (three times the volume of the cone over the face from the origin) -/
+def faceQS (vs : List P3) : Rat := sumf (fun e => (subC (mean3 vs) e).dot (subN (mean3 vs) e)) (cycEdges vs)
+
+theorem surface_tensor (w r : P3) (cell : Cell3) (hp : EdgePaired cell) :
+    sumf (fun f => f.2 * sumf (fun e => w.dot (subN (mean3 f.1) e) * (subC (mean3 f.1) e).dot r) (cycEdges f.1)) cell
+      = w.dot r * (1 / 3 * sumf (fun f => f.2 * faceQS f.1) cell) := by
+  have h0 := hp (Hin w r) (Hin_antisymm w r)
+  unfold dirEdgeSum at h0
+  have : ∀ f ∈ cell, f.2 * sumf (fun e => w.dot (subN (mean3 f.1) e) * (subC (mean3 f.1) e).dot r) (cycEdges f.1)
+      = (w.dot r * (1 / 3)) * (f.2 * faceQS f.1) - f.2 * sumf (fun e => Hin w r e.1 e.2) (cycEdges f.1) := by
+    intro f _
+    rw [face_tensor]; unfold faceQS; ring
+  rw [sumf_congr this, sumf_sub, sumf_mul_left, h0]
+  ring
+
+
+/-! ### 3-D: centroid identity -/
+
+theorem mem_pathEdges {a z : P3} {l : List P3} {e : P3 × P3} (h : e ∈ pathEdges a l z) :
+    (e.1 = a ∨ e.1 ∈ l) ∧ (e.2 ∈ l ∨ e.2 = z) := by
+  induction l generalizing a with
+  | nil =>
+    simp only [pathEdges, List.mem_singleton] at h
+    subst h; simp
+  | cons b l ih =>
+    simp only [pathEdges, List.mem_cons] at h
+    rcases h with rfl | h
+    · simp
+    · have := ih h
+      rcases this with ⟨h1, h2⟩
+      constructor
+      · right; rcases h1 with h1 | h1
+        · rw [h1]; exact List.mem_cons_self
+        · exact List.mem_cons_of_mem _ h1
+      · rcases h2 with h2 | h2
+        · left; exact List.mem_cons_of_mem _ h2
+        · right; exact h2
+
+theorem mem_cycEdges {vs : List P3} {e : P3 × P3} (h : e ∈ cycEdges vs) : e.1 ∈ vs ∧ e.2 ∈ vs := by
+  cases vs with
+  | nil => cases h
+  | cons a l =>
+    have := mem_pathEdges h
+    rcases this with ⟨h1, h2⟩
+    constructor
+    · rcases h1 with h1 | h1
+      · rw [h1]; exact List.mem_cons_self
+      · exact List.mem_cons_of_mem _ h1
+    · rcases h2 with h2 | h2
+      · exact List.mem_cons_of_mem _ h2
+      · rw [h2]; exact List.mem_cons_self
+
+/-- per-edge algebra of the centroid identity, summed over any list -/
+theorem centroid_split {α : Type} (q s : α → P3) (tc o r : P3) (σ : Rat) (l : List α) :
+    σ * sumf (fun e => ((q e).sub o).dot (s e) * ((q e).sub o).dot r) l
+      - sumf (fun e => (((q e).sub tc).dot (P3.smul σ (s e)) / 3)
+            * (4 * (tc.sub o).dot r + 3 * ((q e).sub tc).dot r)) l
+    = σ * sumf (fun e => (tc.sub o).dot (s e) * (q e).dot r) l
+      - o.dot r * (σ * (tc.sub o).dot (sum3 s l))
+      - (tc.sub o).dot r * sumf (fun e => ((q e).sub tc).dot (P3.smul σ (s e)) / 3) l := by
+  induction l with
+  | nil => simp [P3.dot]
+  | cons a l ih =>
+    simp only [sumf_cons, sum3_cons, P3.dot, P3.sub_x, P3.sub_y, P3.sub_z, P3.smul_x, P3.smul_y, P3.smul_z,
+      P3.add_x, P3.add_y, P3.add_z] at ih ⊢
+    linear_combination ih
+
+section face2
+variable (vs : List P3) (σ : Rat)
+variable (hN : (faceN vs).dot (faceN vs) ≠ 0)
+variable (hpl : ∀ e ∈ cycEdges vs, 0 ≤ (subN (mean3 vs) e).dot (faceN vs) ∧
+    P3.smul ((faceN vs).dot (faceN vs)) (subN (mean3 vs) e) = P3.smul ((subN (mean3 vs) e).dot (faceN vs)) (faceN vs))
+variable (hnp : ∀ v ∈ vs, (v.sub (mean3 vs)).dot (faceN vs) = 0)
+
+include hN hpl in
+theorem tetVol_eq (tc : P3) (e : P3 × P3) (he : e ∈ cycEdges vs) :
+    tetVol tc (vs, σ) e = ((subC (mean3 vs) e).sub tc).dot (P3.smul σ (subN (mean3 vs) e)) / 3 := by
+  unfold tetVol
+  rw [outerN_eq vs σ hN hpl e he]
+
+include hN hpl in
+/-- `x_f · r = (1/A) Σ d_e (q_e · r)` -/
+theorem faceCtr_dot_any (r : P3) : (faceCtr vs).dot r * (faceN vs).dot (faceN vs)
+    = sumf (fun e => (subN (mean3 vs) e).dot (faceN vs) * (subC (mean3 vs) e).dot r) (cycEdges vs) := by
+  unfold faceCtr
+  rw [P3.dot_smul_left, dot_sum3, faceWSum_eq vs hpl]
+  have : sumf (fun e => (P3.smul (faceW vs e) (subC (mean3 vs) e)).dot r) (cycEdges vs)
+      = sumf (fun e => (subN (mean3 vs) e).dot (faceN vs) * (subC (mean3 vs) e).dot r) (cycEdges vs) := by
+    apply sumf_congr
+    intro e he
+    have hw : faceW vs e = (subN (mean3 vs) e).dot (faceN vs) := absR_of_nonneg (hpl e he).1
+    rw [P3.dot_smul_left, hw]
+  rw [this]
+  field_simp
+
+theorem sum_d_eq : sumf (fun e => (subN (mean3 vs) e).dot (faceN vs)) (cycEdges vs) = (faceN vs).dot (faceN vs) := by
+  rw [← dot_sum3]; rfl
+
+include hnp in
+theorem subC_planar (e : P3 × P3) (he : e ∈ cycEdges vs) (o : P3) :
+    ((subC (mean3 vs) e).sub o).dot (faceN vs) = ((mean3 vs).sub o).dot (faceN vs) := by
+  obtain ⟨h1, h2⟩ := mem_cycEdges he
+  have a1 := hnp e.1 h1
+  have a2 := hnp e.2 h2
+  simp only [subC, P3.dot, P3.sub_x, P3.sub_y, P3.sub_z, P3.smul_x, P3.smul_y, P3.smul_z, P3.add_x, P3.add_y, P3.add_z] at a1 a2 ⊢
+  linear_combination (1 / 3 : Rat) * a1 + (1 / 3 : Rat) * a2
+
+include hN hpl hnp in
+/-- planar face: the face-level term equals the sum over its sub-triangles -/
+theorem face_to_triangles (o r : P3) :
+    ((faceCtr vs).sub o).dot (faceN vs) * ((faceCtr vs).sub o).dot r
+      = sumf (fun e => ((subC (mean3 vs) e).sub o).dot (subN (mean3 vs) e) * ((subC (mean3 vs) e).sub o).dot r) (cycEdges vs) := by
+  have hA := hN
+  -- (q_e − o)·s_e = d_e h / A
+  have hterm : ∀ e ∈ cycEdges vs,
+      ((subC (mean3 vs) e).sub o).dot (subN (mean3 vs) e) * ((subC (mean3 vs) e).sub o).dot r
+        = (((mean3 vs).sub o).dot (faceN vs) / (faceN vs).dot (faceN vs))
+          * ((subN (mean3 vs) e).dot (faceN vs) * (subC (mean3 vs) e).dot r
+             - o.dot r * (subN (mean3 vs) e).dot (faceN vs)) := by
+    intro e he
+    obtain ⟨_, hpar⟩ := hpl e he
+    have hpd := congrArg (fun v => ((subC (mean3 vs) e).sub o).dot v) hpar
+    simp only [P3.dot_smul_right] at hpd
+    rw [subC_planar vs hnp e he o] at hpd
+    have : ((subC (mean3 vs) e).sub o).dot (subN (mean3 vs) e)
+        = (subN (mean3 vs) e).dot (faceN vs) * ((mean3 vs).sub o).dot (faceN vs) / (faceN vs).dot (faceN vs) := by
+      field_simp
+      linarith
+    rw [this]
+    simp only [P3.dot_sub_left]
+    field_simp
+  rw [sumf_congr hterm, sumf_mul_left, sumf_sub, sumf_mul_left, ← faceCtr_dot_any vs hN hpl r, sum_d_eq vs]
+  -- (x_f − o)·N = (m − o)·N
+  have hxN : ((faceCtr vs).sub o).dot (faceN vs) = ((mean3 vs).sub o).dot (faceN vs) := by
+    have h1 := faceCtr_dot_any vs hN hpl (faceN vs)
+    have h2 : sumf (fun e => (subN (mean3 vs) e).dot (faceN vs) * (subC (mean3 vs) e).dot (faceN vs)) (cycEdges vs)
+        = (mean3 vs).dot (faceN vs) * (faceN vs).dot (faceN vs) := by
+      have : ∀ e ∈ cycEdges vs, (subN (mean3 vs) e).dot (faceN vs) * (subC (mean3 vs) e).dot (faceN vs)
+          = (mean3 vs).dot (faceN vs) * (subN (mean3 vs) e).dot (faceN vs) := by
+        intro e he
+        have := subC_planar vs hnp e he P3.zero
+        simp only [P3.dot_sub_left] at this
+        have hz : P3.zero.dot (faceN vs) = 0 := by simp [P3.dot]
+        rw [hz] at this
+        have : (subC (mean3 vs) e).dot (faceN vs) = (mean3 vs).dot (faceN vs) := by linarith
+        rw [this]; ring
+      rw [sumf_congr this, sumf_mul_left, sum_d_eq vs]
+    rw [h2] at h1
+    have : (faceCtr vs).dot (faceN vs) = (mean3 vs).dot (faceN vs) := mul_right_cancel₀ hA h1
+    rw [P3.dot_sub_left, P3.dot_sub_left, this]
+  rw [hxN]
+  simp only [P3.dot_sub_left]
+  field_simp
+end face2
+
+theorem relMom_dot (tc r : P3) (cell : Cell3) :
+    (cellRelMom3 tc cell).dot r
+      = sumf (fun f => sumf (fun e => tetVol tc f e * (3 / 4) * ((subC (mean3 f.1) e).sub tc).dot r) (cycEdges f.1)) cell := by
+  unfold cellRelMom3
+  rw [dot_sum3]
+  apply sumf_congr; intro f _
+  rw [dot_sum3]
+  apply sumf_congr; intro e _
+  rw [P3.dot_smul_left]
+
+theorem centroid_identity_3d_aux (cell : Cell3) (tc o r : P3) (hp : EdgePaired cell) (hpl : PlanarStar cell)
+    (hnp : NodesPlanar cell) :
+    sumf (fun f => f.2 * (((faceCtr f.1).sub o).dot (faceN f.1) * ((faceCtr f.1).sub o).dot r)) cell
+      = 4 * ((cellMom3 tc cell).dot r - cellVol3 tc cell * o.dot r) := by
+  have hclosed := closed_cell_3d_aux cell hp
+  have hvol := volume_identity_3d_aux cell tc P3.zero hp hpl
+  -- right-hand side as a double sum
+  have hR : 4 * ((cellMom3 tc cell).dot r - cellVol3 tc cell * o.dot r)
+      = sumf (fun f => sumf (fun e => tetVol tc f e * (4 * (tc.sub o).dot r + 3 * ((subC (mean3 f.1) e).sub tc).dot r))
+          (cycEdges f.1)) cell := by
+    unfold cellMom3
+    rw [P3.dot_add_left, P3.dot_smul_left, relMom_dot]
+    unfold cellVol3 faceVol
+    rw [P3.dot_sub_left]
+    have : ∀ f ∈ cell, sumf (fun e => tetVol tc f e * (4 * (tc.dot r - o.dot r) + 3 * ((subC (mean3 f.1) e).sub tc).dot r)) (cycEdges f.1)
+        = 4 * (tc.dot r - o.dot r) * sumf (tetVol tc f) (cycEdges f.1)
+          + 4 * sumf (fun e => tetVol tc f e * (3 / 4) * ((subC (mean3 f.1) e).sub tc).dot r) (cycEdges f.1) := by
+      intro f _
+      rw [← sumf_mul_left, ← sumf_mul_left, ← sumf_add]
+      apply sumf_congr; intro e _; ring
+    rw [sumf_congr this, sumf_add, sumf_mul_left, sumf_mul_left]
+    ring
+  rw [hR]
+  -- per face
+  have hface : ∀ f ∈ cell,
+      f.2 * (((faceCtr f.1).sub o).dot (faceN f.1) * ((faceCtr f.1).sub o).dot r)
+        - sumf (fun e => tetVol tc f e * (4 * (tc.sub o).dot r + 3 * ((subC (mean3 f.1) e).sub tc).dot r)) (cycEdges f.1)
+      = f.2 * sumf (fun e => (tc.sub o).dot (subN (mean3 f.1) e) * (subC (mean3 f.1) e).dot r) (cycEdges f.1)
+        - o.dot r * ((tc.sub o).dot (P3.smul f.2 (faceN f.1)))
+        - (tc.sub o).dot r * faceVol tc f := by
+    intro f hf
+    obtain ⟨hN, hpe⟩ := hpl f hf
+    have hnpf := hnp f hf
+    rw [face_to_triangles f.1 hN hpe hnpf o r]
+    have ht : sumf (fun e => tetVol tc f e * (4 * (tc.sub o).dot r + 3 * ((subC (mean3 f.1) e).sub tc).dot r)) (cycEdges f.1)
+        = sumf (fun e => (((subC (mean3 f.1) e).sub tc).dot (P3.smul f.2 (subN (mean3 f.1) e)) / 3)
+            * (4 * (tc.sub o).dot r + 3 * ((subC (mean3 f.1) e).sub tc).dot r)) (cycEdges f.1) := by
+      apply sumf_congr; intro e he
+      have : tetVol tc f e = tetVol tc (f.1, f.2) e := rfl
+      rw [this, tetVol_eq f.1 f.2 hN hpe tc e he]
+    have hv : faceVol tc f
+        = sumf (fun e => ((subC (mean3 f.1) e).sub tc).dot (P3.smul f.2 (subN (mean3 f.1) e)) / 3) (cycEdges f.1) := by
+      unfold faceVol
+      apply sumf_congr; intro e he
+      have : tetVol tc f e = tetVol tc (f.1, f.2) e := rfl
+      rw [this, tetVol_eq f.1 f.2 hN hpe tc e he]
+    rw [ht, hv, centroid_split, P3.dot_smul_right]
+    rfl
+  have hsum : sumf (fun f => f.2 * (((faceCtr f.1).sub o).dot (faceN f.1) * ((faceCtr f.1).sub o).dot r)) cell
+      - sumf (fun f => sumf (fun e => tetVol tc f e * (4 * (tc.sub o).dot r + 3 * ((subC (mean3 f.1) e).sub tc).dot r))
+          (cycEdges f.1)) cell = 0 := by
+    rw [← sumf_sub, sumf_congr hface, sumf_sub, sumf_sub, surface_tensor (tc.sub o) r cell hp, sumf_mul_left,
+      ← sum3_dot, hclosed, sumf_mul_left]
+    -- V = (1/3) Σ σ QS
+    have hV : 3 * cellVol3 tc cell = sumf (fun f => f.2 * faceQS f.1) cell := by
+      rw [← hvol]
+      apply sumf_congr; intro f hf
+      obtain ⟨hN, hpe⟩ := hpl f hf
+      rw [P3.dot_sub_left, faceCtr_dot f.1 hN hpe]
+      have hz : P3.zero.dot (faceN f.1) = 0 := by simp [P3.dot]
+      rw [hz]; unfold faceQS; ring
+    have hz : (tc.sub o).dot P3.zero = 0 := by simp [P3.dot]
+    rw [hz, ← hV]
+    unfold cellVol3
+    ring
+  linarith
+
+
+theorem tri_nodesPlanar (a b c : P3) : ∀ v ∈ [a, b, c], (v.sub (mean3 [a, b, c])).dot (faceN [a, b, c]) = 0 := by
+  intro v hv
+  simp only [List.mem_cons, List.not_mem_nil, or_false] at hv
+  rcases hv with rfl | rfl | rfl <;>
+  · simp [faceN, subN, mean3, cycEdges, pathEdges, P3.dot]
+    ring
+
+theorem tet_nodesPlanar (p0 p1 p2 p3 : P3) : NodesPlanar (tetCell p0 p1 p2 p3) := by
+  intro f hf
+  simp only [tetCell, List.mem_cons, List.not_mem_nil, or_false] at hf
+  rcases hf with rfl | rfl | rfl | rfl <;> exact tri_nodesPlanar _ _ _
+
+/-! ### 3-D: Cartesian cells -/
+
+/-- a parallelogram face `a b c (a+c−b)` is planar and star-shaped: every sub-normal is `N/4` -/
+theorem para_planarStar (a b c : P3)
+    (hnd : (faceN [a, b, c, (a.add c).sub b]).dot (faceN [a, b, c, (a.add c).sub b]) ≠ 0) :
+    (faceN [a, b, c, (a.add c).sub b]).dot (faceN [a, b, c, (a.add c).sub b]) ≠ 0 ∧
+    ∀ e ∈ cycEdges [a, b, c, (a.add c).sub b],
+      0 ≤ (subN (mean3 [a, b, c, (a.add c).sub b]) e).dot (faceN [a, b, c, (a.add c).sub b]) ∧
+      P3.smul ((faceN [a, b, c, (a.add c).sub b]).dot (faceN [a, b, c, (a.add c).sub b])) (subN (mean3 [a, b, c, (a.add c).sub b]) e)
+        = P3.smul ((subN (mean3 [a, b, c, (a.add c).sub b]) e).dot (faceN [a, b, c, (a.add c).sub b])) (faceN [a, b, c, (a.add c).sub b]) := by
+  refine ⟨hnd, ?_⟩
+  have key : ∀ e ∈ cycEdges [a, b, c, (a.add c).sub b],
+      subN (mean3 [a, b, c, (a.add c).sub b]) e = P3.smul (1 / 4) (faceN [a, b, c, (a.add c).sub b]) := by
+    intro e he
+    simp only [cycEdges, pathEdges, List.mem_cons, List.not_mem_nil, or_false] at he
+    rcases he with rfl | rfl | rfl | rfl <;>
+    · ext <;> simp [faceN, subN, mean3, cycEdges, pathEdges] <;> ring
+  intro e he
+  rw [key e he]
+  constructor
+  · rw [P3.dot_smul_left]
+    have : 0 ≤ (faceN [a, b, c, (a.add c).sub b]).dot (faceN [a, b, c, (a.add c).sub b]) := by
+      simp only [P3.dot]
+      nlinarith [mul_self_nonneg (faceN [a, b, c, (a.add c).sub b]).x, mul_self_nonneg (faceN [a, b, c, (a.add c).sub b]).y,
+        mul_self_nonneg (faceN [a, b, c, (a.add c).sub b]).z]
+    linarith
+  · rw [P3.dot_smul_left]
+    ext <;> simp <;> ring
+
+theorem para_planarStar' (a b c d : P3) (hd : d = (a.add c).sub b)
+    (hnd : (faceN [a, b, c, d]).dot (faceN [a, b, c, d]) ≠ 0) :
+    (faceN [a, b, c, d]).dot (faceN [a, b, c, d]) ≠ 0 ∧
+    ∀ e ∈ cycEdges [a, b, c, d],
+      0 ≤ (subN (mean3 [a, b, c, d]) e).dot (faceN [a, b, c, d]) ∧
+      P3.smul ((faceN [a, b, c, d]).dot (faceN [a, b, c, d])) (subN (mean3 [a, b, c, d]) e)
+        = P3.smul ((subN (mean3 [a, b, c, d]) e).dot (faceN [a, b, c, d])) (faceN [a, b, c, d]) := by
+  subst hd
+  exact para_planarStar a b c hnd
+
+theorem hex_paired (x0 x1 y0 y1 z0 z1 : Rat) : EdgePaired (tensorCell3 x0 x1 y0 y1 z0 z1) := by
+  intro G hG
+  simp only [dirEdgeSum, tensorCell3, cycEdges, pathEdges, sumf_cons, sumf_nil]
+  have e1 := hG ⟨x0, y0, z0⟩ ⟨x0, y1, z0⟩
+  have e2 := hG ⟨x0, y1, z0⟩ ⟨x0, y1, z1⟩
+  have e3 := hG ⟨x0, y1, z1⟩ ⟨x0, y0, z1⟩
+  have e4 := hG ⟨x0, y0, z1⟩ ⟨x0, y0, z0⟩
+  have e5 := hG ⟨x1, y0, z0⟩ ⟨x1, y1, z0⟩
+  have e6 := hG ⟨x1, y1, z0⟩ ⟨x1, y1, z1⟩
+  have e7 := hG ⟨x1, y1, z1⟩ ⟨x1, y0, z1⟩
+  have e8 := hG ⟨x1, y0, z1⟩ ⟨x1, y0, z0⟩
+  have e9 := hG ⟨x0, y0, z0⟩ ⟨x1, y0, z0⟩
+  have e10 := hG ⟨x0, y1, z0⟩ ⟨x1, y1, z0⟩
+  have e11 := hG ⟨x0, y1, z1⟩ ⟨x1, y1, z1⟩
+  have e12 := hG ⟨x0, y0, z1⟩ ⟨x1, y0, z1⟩
+  linarith
+
+theorem hex_planarStar (x0 x1 y0 y1 z0 z1 : Rat) (hx : x0 ≠ x1) (hy : y0 ≠ y1) (hz : z0 ≠ z1) :
+    PlanarStar (tensorCell3 x0 x1 y0 y1 z0 z1) := by
+  have dx : x1 - x0 ≠ 0 := sub_ne_zero.mpr (Ne.symm hx)
+  have dy : y1 - y0 ≠ 0 := sub_ne_zero.mpr (Ne.symm hy)
+  have dz : z1 - z0 ≠ 0 := sub_ne_zero.mpr (Ne.symm hz)
+  intro f hf
+  simp only [tensorCell3, List.mem_cons, List.not_mem_nil, or_false] at hf
+  rcases hf with rfl | rfl | rfl | rfl | rfl | rfl
+  all_goals
+    apply para_planarStar'
+    · ext <;> simp
+    · simp [faceN, subN, mean3, cycEdges, pathEdges, P3.dot]
+      ring_nf
+      first
+        | (have h := mul_ne_zero (mul_ne_zero dy dz) (mul_ne_zero dy dz); intro hc; apply h; linear_combination hc)
+        | (have h := mul_ne_zero (mul_ne_zero dx dz) (mul_ne_zero dx dz); intro hc; apply h; linear_combination hc)
+        | (have h := mul_ne_zero (mul_ne_zero dx dy) (mul_ne_zero dx dy); intro hc; apply h; linear_combination hc)
+
+
+/-- `3 V = Σ sign · Σ_e q_e · s_e` (cones over the faces from the origin) -/
+theorem three_vol_eq_QS (cell : Cell3) (tc : P3) (hp : EdgePaired cell) (hpl : PlanarStar cell) :
+    3 * cellVol3 tc cell = sumf (fun f => f.2 * faceQS f.1) cell := by
+  rw [← volume_identity_3d_aux cell tc P3.zero hp hpl]
+  apply sumf_congr; intro f hf
+  obtain ⟨hN, hpe⟩ := hpl f hf
+  rw [P3.dot_sub_left, faceCtr_dot f.1 hN hpe]
+  have hz : P3.zero.dot (faceN f.1) = 0 := by simp [P3.dot]
+  rw [hz]; unfold faceQS; ring
+
+theorem cart3_cell_volume_aux (x0 x1 y0 y1 z0 z1 : Rat) (tc : P3) (hx : x0 ≠ x1) (hy : y0 ≠ y1) (hz : z0 ≠ z1) :
+    cellVol3 tc (tensorCell3 x0 x1 y0 y1 z0 z1) = (x1 - x0) * (y1 - y0) * (z1 - z0) := by
+  have h := three_vol_eq_QS _ tc (hex_paired x0 x1 y0 y1 z0 z1) (hex_planarStar x0 x1 y0 y1 z0 z1 hx hy hz)
+  have : sumf (fun f => f.2 * faceQS f.1) (tensorCell3 x0 x1 y0 y1 z0 z1) = 3 * ((x1 - x0) * (y1 - y0) * (z1 - z0)) := by
+    simp [tensorCell3, faceQS, subC, subN, mean3, cycEdges, pathEdges, P3.dot]
+    ring
+  linarith
+
+theorem cart_volumes_sum_3d_aux (x0 y0 z0 : Rat) (xs ys zs : List Rat)
+    (hxs : ∀ p ∈ pairs (x0 :: xs), p.1 ≠ p.2) (hys : ∀ p ∈ pairs (y0 :: ys), p.1 ≠ p.2)
+    (hzs : ∀ p ∈ pairs (z0 :: zs), p.1 ≠ p.2) :
+    tensorVolumeSum3 (x0 :: xs) (y0 :: ys) (z0 :: zs)
+      = (lastD xs x0 - x0) * (lastD ys y0 - y0) * (lastD zs z0 - z0) := by
+  unfold tensorVolumeSum3 tensorCells3
+  rw [sumf_flatMap]
+  have hz : ∀ z ∈ pairs (z0 :: zs),
+      sumf (fun c => cellVol3 (tempCenter3 c) c)
+        ((pairs (y0 :: ys)).flatMap (fun y => (pairs (x0 :: xs)).map (fun x => tensorCell3 x.1 x.2 y.1 y.2 z.1 z.2)))
+      = (lastD xs x0 - x0) * (lastD ys y0 - y0) * (z.2 - z.1) := by
+    intro z hzm
+    rw [sumf_flatMap]
+    have hy : ∀ y ∈ pairs (y0 :: ys),
+        sumf (fun c => cellVol3 (tempCenter3 c) c) ((pairs (x0 :: xs)).map (fun x => tensorCell3 x.1 x.2 y.1 y.2 z.1 z.2))
+        = (lastD xs x0 - x0) * ((y.2 - y.1) * (z.2 - z.1)) := by
+      intro y hym
+      rw [sumf_map]
+      have hx : ∀ x ∈ pairs (x0 :: xs),
+          cellVol3 (tempCenter3 (tensorCell3 x.1 x.2 y.1 y.2 z.1 z.2)) (tensorCell3 x.1 x.2 y.1 y.2 z.1 z.2)
+          = (x.2 - x.1) * ((y.2 - y.1) * (z.2 - z.1)) := by
+        intro x hxm
+        rw [cart3_cell_volume_aux x.1 x.2 y.1 y.2 z.1 z.2 _ (hxs x hxm) (hys y hym) (hzs z hzm)]; ring
+      rw [sumf_congr hx, sumf_mul_right, sum_pairs_diff]
+    rw [sumf_congr hy]
+    have : (fun y : Rat × Rat => (lastD xs x0 - x0) * ((y.2 - y.1) * (z.2 - z.1)))
+        = fun y => ((lastD xs x0 - x0) * (z.2 - z.1)) * (y.2 - y.1) := by funext y; ring
+    rw [this, sumf_mul_left, sum_pairs_diff]; ring
+  rw [sumf_congr hz, sumf_mul_left, sum_pairs_diff]
+
 end PorepyVerif.C19
